@@ -361,7 +361,11 @@ def extract(repo):
     info["on_change_seq"] = seq
     want = ["Analyzer::drop_file", "Parser::parse", "analyze_pass1", "analyze_post_pass1", "analyze_pass2",
             "analyze_post_pass2", "publish_diagnostics", "document_map.insert"]
-    info["on_change_ok"] = seq == want
+    # since fix c58d725 a post pass guarded by `!self.background_tasks.is_empty()` precedes the drop (it applies the
+    # pending output of a running background task; a no-op between the model's atomic events)
+    guarded = bool(re.search(r"if\s+!self\.background_tasks\.is_empty\(\)\s*\{\s*Analyzer::analyze_post_pass1\(\);\s*\}", oc[0]))
+    info["on_change_ok"] = seq == want or (guarded and seq == ["analyze_post_pass1"] + want)
+    info["on_change_applies_pending_first"] = guarded and seq == ["analyze_post_pass1"] + want
     bg = fn_bodies(sv, "background_analyze")
     if len(bg) != 1:
         raise TranslatorError("Server::background_analyze not found")
@@ -377,13 +381,13 @@ def extract(repo):
     info["on_remove_forgets"] = bool(rm and re.search(r"document_map\s*\.remove\(", rm[0]))
     dc = _strip_comments(_read(repo, "crates/languageserver/src/backend.rs"))
     # didClose reaches the analysis thread and there: document_map.remove, drop_file, a background task
-    handler = re.search(r"async fn did_close[^{]*\{", dc)
+    handler = re.search(r"async fn did_close\s*\([^{]*\{", dc)
     sent = bool(handler and re.search(r"MsgToServer::DidClose", dc[handler.end():_match(dc, handler.end() - 1)]))
     cl = fn_bodies(sv, "did_close")
     info["did_close_handled"] = bool(sent and cl and re.search(r"MsgToServer::DidClose\s*\{[^}]*\}\s*=>\s*self\.did_close", sv)
                                      and re.search(r"document_map\s*\.remove\(", cl[0]) and "Analyzer::drop_file" in cl[0]
                                      and re.search(r"background_tasks\.push_back\(", cl[0]))
-    info["did_save_handled"] = bool(re.search(r"async fn did_save", dc))
+    info["did_save_handled"] = bool(re.search(r"async fn did_save\s*\(", dc))
     # try_restore = drop_file + restore
     inc = _strip_comments(_read(repo, "crates/languageserver/src/incremental.rs"))
     tr = fn_bodies(inc, "try_restore")
